@@ -453,6 +453,38 @@ func comparedWithField(info *types.Info, body *ast.BlockStmt, recv, field string
 		}
 		return true
 	})
+	// ... and "n := len(req.Id)" makes n stand for it
+	for round := 0; round < 2; round++ {
+		ast.Inspect(body, func(n ast.Node) bool {
+			if as, ok := n.(*ast.AssignStmt); ok && len(as.Lhs) == len(as.Rhs) {
+				for i := range as.Rhs {
+					id, ok := as.Lhs[i].(*ast.Ident)
+					if !ok {
+						continue
+					}
+					hit := mentions(as.Rhs[i])
+					ast.Inspect(as.Rhs[i], func(m ast.Node) bool {
+						if x, ok := m.(*ast.Ident); ok && alias[x.Name] {
+							hit = true
+						}
+						return true
+					})
+					// only values derived from the field, not calls that merely take it (err := f(req.Id))
+					if _, isCall := as.Rhs[i].(*ast.CallExpr); isCall {
+						if ce := as.Rhs[i].(*ast.CallExpr); len(ce.Args) != 1 {
+							hit = false
+						} else if fid, ok := ce.Fun.(*ast.Ident); !ok || (fid.Name != "len" && fid.Name != "cap") {
+							hit = false
+						}
+					}
+					if hit {
+						alias[id.Name] = true
+					}
+				}
+			}
+			return true
+		})
+	}
 	mentionsOrAlias := func(e ast.Expr) bool {
 		if mentions(e) {
 			return true
@@ -557,9 +589,35 @@ func comparedWithField(info *types.Info, body *ast.BlockStmt, recv, field string
 // comparedWithIdent: constants that identifier name (a parameter of a helper) is compared with, switched
 // over, or looked up among (composite literals passed to slices.Contains / used as a set).
 func comparedWithIdent(info *types.Info, body *ast.BlockStmt, name string) []constant.Value {
+	// the parameter itself, an expression over it (len(v)), or a local that was assigned one ("n := len(v)")
+	names := map[string]bool{name: true}
+	mentionsName := func(e ast.Expr) bool {
+		found := false
+		ast.Inspect(e, func(n ast.Node) bool {
+			if id, ok := n.(*ast.Ident); ok && names[id.Name] {
+				found = true
+			}
+			return true
+		})
+		return found
+	}
+	for round := 0; round < 2; round++ {
+		ast.Inspect(body, func(n ast.Node) bool {
+			if as, ok := n.(*ast.AssignStmt); ok && len(as.Lhs) == len(as.Rhs) {
+				for i := range as.Rhs {
+					if id, ok := as.Lhs[i].(*ast.Ident); ok && mentionsName(as.Rhs[i]) {
+						names[id.Name] = true
+					}
+				}
+			}
+			return true
+		})
+	}
 	is := func(e ast.Expr) bool {
-		id, ok := e.(*ast.Ident)
-		return ok && id.Name == name
+		if _, isLit := e.(*ast.BasicLit); isLit {
+			return false
+		}
+		return mentionsName(e)
 	}
 	constOf := func(e ast.Expr) (constant.Value, bool) {
 		if tv, ok := info.Types[e]; ok && tv.Value != nil {
